@@ -23,6 +23,14 @@ path-lookup / template / edit reference of mc/ref/c08_model.py:
     written from the docstring, the context after the call == reference edit of a fresh copy, data the
     same object, a copied context item shares no container with its source, the configured value stays
     the configured value after a consumer edited an earlier result;
+  * value shapes: every constructible UpdateContext configuration and every DeleteContext key x every
+    shape of the value (mc/ref/c08_values.py): (data, context) pairs by the documented rule (plain,
+    named tuple, a dict subclass as context, data that itself looks like a pair or holds a dictionary
+    with the addressed keys) and data without context that merely resembles a pair (lists, deques,
+    tuples of other lengths, a second item that is not a dict, one-shot iterators): the context of a
+    pair gets exactly the reference edit, everything that is data stays as it was built;
+  * element forms: the same matrix with the element deep-copied, shallow-copied, sent through pickle,
+    used before on another context, deep-copied after use: every form acts as a new element does;
   * malformed arguments (a notation the callee does not take, empty or ill-formed dotted strings) end
     in LenaTypeError / LenaValueError or are handled as the same path - never in a foreign exception.
 """
@@ -35,6 +43,7 @@ from lena.context import (contains, format_context, format_update_with, get_recu
 from mc.core import Result, result_violations
 from mc.ref import c07c08_dicts as R
 from mc.ref import c08_model as M
+from mc.ref import c08_values as V
 
 ID = "C08"
 LEVEL = "exploration"
@@ -42,10 +51,13 @@ DESIGN_REF = "DESIGN.md section 5, C08"
 RULE = ("one case = one (context, key path) with all notations and all DeleteContext forms, one (path, "
         "value) round trip, one (template string, context), one (key, value, context) of "
         "format_update_with, one dictionary with all its key orders for to_string, or one (UpdateContext "
-        "configuration, subcontext, context); every case is built fresh and executed on the real code. "
+        "configuration, subcontext, context) - the latter also per shape of the value (pairs and "
+        "look-alikes of pairs) and per life-cycle form of the element (new, deepcopy, copy, pickle, used "
+        "before), as (DeleteContext key, context) is; every case is built fresh and executed on the real code. "
         "Non-trivial: a lookup whose path has >= 2 components and starts at a key of the context; a "
         "well-formed template with >= 1 field; a dictionary with >= 2 key orders; an update or deletion "
-        "that changes a non-empty context. Template strings are de-duplicated, so cases are distinct by "
+        "that changes a non-empty context, or that meets a value without context whose data holds a "
+        "non-empty dictionary. Template strings are de-duplicated, so cases are distinct by "
         "construction")
 ASSUMPTIONS = [
     "contexts are JSON-like trees with keys from {a, b}, depth <= 3, leaves from 0, 1, 'c', '1', None, '', "
@@ -63,6 +75,13 @@ ASSUMPTIONS = [
     "UpdateContext(value=True) with a non-string update is not documented: constructing or LenaValueError "
     "are both accepted; DeleteContext with the empty key may clear the context, leave it or raise "
     "LenaTypeError/LenaValueError",
+    "a value is a (data, context) pair exactly when it is a tuple (or subclass) of length 2 whose second "
+    "item is a dict (or subclass) - the rule documented in lena.flow.functions; every other value is data "
+    "without context and the elements work on an empty context for it. Data counts as untouched when it "
+    "compares equal (types included) to a newly built one and a one-shot iterator still delivers all items",
+    "a copy of an element (copy.deepcopy, copy.copy, pickle round trip) or an element called before is "
+    "demanded to act like a new one only where copying succeeds: elements holding a jinja2.Template can "
+    "be neither deep-copied nor pickled on the unchanged tree (counter element_form_does_not_exist)",
 ]
 NONTRIVIAL_FLOOR = {"quick": 60000, "thorough": 1500000}
 BUDGET_S = {"quick": 240, "thorough": 2400}
@@ -99,6 +118,10 @@ def _dom(tier):
                           "{{a.a}}{{a.b}}{{b}}", "{{b.a}}"],
             uc_junk=["{{", "{{a}}}}", "{a}", "{{a}}{b}", "}}{{", "{{a", "{{}}"],
             uc_shards=48,
+            vs_ctx=VS_CTX + [{"a": 0}] + UC_EXTRA_CTX, vs_shards=12,
+            vs_subs=[p for p in M.paths(AB, range(1, 3))] + [("c",), ("a", "c"), ("c", "a"), ("a", "b", "a")],
+            ef_ctx="uc", ef_shards=6, ef_forms=EF_FORMS,
+            ef_subs=[p for p in M.paths(AB, range(1, 3))] + [("c",), ("a", "c"), ("c", "a"), ("a", "b", "a")],
         )
     return dict(
         lookup_fams=[("chain3", [("a",)] * 3, [0, 1, "c", "1", None, "", [], [0], "ca", ["c"]], 1),
@@ -119,6 +142,10 @@ def _dom(tier):
         uc_templates=["", "x", "{{a}}", "x{{a.b}}_{{c}}", "{{b}}{{a}}"],
         uc_junk=["{{", "{{a}}}}", "{a}", "}}{{"],
         uc_shards=12,
+        vs_ctx=VS_CTX, vs_shards=4, vs_subs=[("a",), ("a", "b")],
+        ef_ctx=[{}] + UC_EXTRA_CTX + [{"a": {"a": 0, "b": 0}, "b": {"a": 0}}, {"a": 0, "b": 0}], ef_shards=1,
+        ef_subs=[("a",), ("a", "b")],
+        ef_forms=["deepcopy", "copy", "pickle", "used-on-full", "deepcopy-of-used"],
     )
 
 
@@ -126,6 +153,11 @@ UC_EXTRA_CTX = [{"a": [0]}, {"a": {"b": [0]}}, {"a": {"a": {"a": 0}}}, {"a": {"b
                 {"a": None}, {"a": "c", "b": {"a": None}}, {"a": {"b": {"a": {"a": 1}}}},
                 # a scalar that reads like the next component of an addressed key (a.b is missing there)
                 {"a": "b"}, {"a": {"b": "a"}, "b": "a"}]
+# dictionaries a value of every shape is built from (value-shape law)
+VS_CTX = [{}, {"a": {"b": 0}, "b": 1}, {"a": {"b": {"a": [0]}}, "b": ""}]
+VS_SHAPES = [s for s in V.SHAPES if s not in ("pair", "bare-list")]     # these two: the update matrix, check_bare
+EF_FORMS = [f for f in V.FORMS if f != "new"]
+DELETE_VARIANT_PATHS = M.paths(AB, range(1, 4)) + [("c",), ("a", "c")]
 UC_DEFAULTS = [[], [None], [0], [{"a": [0]}]]
 UC_BAD_CTXVALUE = ["x{{a}}", "{{a}}{{b}}", "{{}}", "a", "{{a}}x", "{{a}"]
 
@@ -191,6 +223,11 @@ def _uc_contexts(tier):
     return _CACHE[key]
 
 
+def _ef_contexts(tier):
+    c = _dom(tier)["ef_ctx"]
+    return _uc_contexts("quick") if c == "uc" else c
+
+
 def _uc_raw_configs(tier):
     d = _dom(tier)
     updates = d["uc_simple"] + d["uc_ctxvalue"] + d["uc_templates"] + d["uc_junk"] + UC_BAD_CTXVALUE
@@ -229,12 +266,17 @@ def describe(tier):
     return ("lookup/DeleteContext: families %s; %d key paths of length 0..4; round trip: paths of length 1..4 "
             "over %s x %d values; templates: %d distinct strings of <= %d tokens from %r x %d contexts; "
             "format_update_with: %d keys x %d values x %d contexts; to_string: families %s with every key "
-            "order; UpdateContext: %d constructible + %d rejected configurations x %d subcontexts x %d contexts"
+            "order; UpdateContext: %d constructible + %d rejected configurations x %d subcontexts x %d contexts; "
+            "value shapes: %d shapes %r x constructible configurations x %d subcontexts x %d dictionaries (+ %d "
+            "DeleteContext paths); element forms: %r x constructible configurations x %d subcontexts x %d contexts "
+            "(+ the DeleteContext paths)"
             % ("; ".join(fams), len(d["paths"]), list(d["rt_alphabet"]), len(ROUNDTRIP_VALUES),
                len(_templates(tier)), d["max_tokens"], d["tokens"], len(TEMPLATE_CTX),
                len(_fuw_keys()), len(FUW_VALUES) + len(_fuw_strings(tier)), len(_fuw_contexts()),
                [n for n, _, _ in d["ts_fams"]], len(good), len(bad), len(d["uc_subs"]),
-               len(_uc_contexts(tier))))
+               len(_uc_contexts(tier)),
+               len(VS_SHAPES), VS_SHAPES, len(d["vs_subs"]), len(d["vs_ctx"]), len(DELETE_VARIANT_PATHS),
+               d["ef_forms"], len(d["ef_subs"]), len(_ef_contexts(tier))))
 
 
 def shards(tier):
@@ -255,6 +297,11 @@ def shards(tier):
                 out.append({"kind": "lookup", "fam": name, "lo": lo, "hi": hi, "bound": "lookup-" + name})
     for i in range(d["uc_shards"]):
         out.append({"kind": "update", "i": i, "k": d["uc_shards"], "bound": "update-matrix"})
+    for i in range(d["vs_shards"]):
+        out.append({"kind": "shapes", "i": i, "k": d["vs_shards"], "bound": "value-shapes"})
+    for form in d["ef_forms"]:
+        for i in range(d["ef_shards"]):
+            out.append({"kind": "forms", "form": form, "i": i, "k": d["ef_shards"], "bound": "element-forms"})
     return out
 
 
@@ -362,21 +409,27 @@ def check_lookup(res, proto, path, d=None):
 
 # -- DeleteContext -------------------------------------------------------------------------------------
 
-def _run_delete(key, proto, bare=False):
-    """-> (outcome, returned data is the given data, returned context, data intact)."""
-    ctx = R.fresh(proto)
-    data = [1]
-    value = data if bare else (data, ctx)
+def _run_delete(key, proto, bare=False, shape=None, form="new"):
+    """-> (outcome, returned data is the given data, returned context, data intact).
+    *shape*: the shape of the value (mc/ref/c08_values.py), *form*: the life-cycle form of the element."""
+    shape = shape or ("bare-list" if bare else "pair")
+    value, data, ctxobj = V.make(shape, proto)
     try:
         el = DeleteContext(key)
     except Exception as e:
         return "ctor " + _ename(e), None, None, None
+    el = V.element_in_form(form, el)
+    if el is None:
+        return "no-such-form", None, None, None
     try:
         ret = el(value)
     except Exception as e:
-        return "call " + _ename(e), None, ctx, data == [1]
+        return "call " + _ename(e), None, V.plain(ctxobj), V.data_intact(shape, data, proto)
+    if ctxobj is None:
+        # data without context: the value itself comes back
+        return "ok", ret is value, {}, V.data_intact(shape, data, proto)
     rd, rc, _ = _split(ret)
-    return "ok", rd is data, rc, data == [1]
+    return "ok", rd is data, V.plain(rc), V.data_intact(shape, data, proto)
 
 
 def check_delete(res, proto, path, forms=("string", "list", "tuple")):
@@ -413,6 +466,36 @@ def check_delete(res, proto, path, forms=("string", "list", "tuple")):
                            "empty_path": not path, "problem": problem})
     res.case(nontrivial=bool(path) and bool(proto) and not _teq(expected, proto),
              outcome=("del", repr(R.tfreeze(expected))))
+    return case
+
+
+def check_delete_variant(res, proto, path, shape="pair", form="new"):
+    """DeleteContext called with a value of another *shape* (mc/ref/c08_values.py) or in another
+    life-cycle *form* of the element: the item leaves the context of a (data, context) pair and nothing
+    else changes; a value that is no pair by the documented rule is data and comes back as it is."""
+    path = tuple(path)
+    eff = proto if shape in V.PAIR_SHAPES else {}
+    expected = M.delete_path(eff, path)
+    case = {"law": "delete-variant", "ctx": proto, "path": list(path), "shape": shape, "form": form}
+    for kform in ("string", "list"):
+        key = {"string": M.dotted(path), "list": list(path)}[kform]
+        out, same_data, rc, intact = _run_delete(key, proto, shape=shape, form=form)
+        if out == "no-such-form":
+            res.count("element_form_does_not_exist:" + form)
+            continue
+        problem = None
+        if out != "ok":
+            problem = out
+        elif not (same_data and intact):
+            problem = "data-touched"
+        elif not _teq(rc, expected):
+            problem = "item-not-deleted" if _teq(rc, eff) else "other-item-changed"
+        if problem:
+            res.violation(dict(case, key_form=kform), {"problem": problem, "context": rc}, expected,
+                          {"law": "delete-value-shape" if shape != "pair" else "delete-element-form",
+                           "shape": shape, "form": form, "problem": problem})
+    res.case(nontrivial=bool(proto) and (eff is not proto or not _teq(expected, proto)),
+             outcome=("delv", shape in V.PAIR_SHAPES, repr(R.tfreeze(expected))))
     return case
 
 
@@ -687,9 +770,21 @@ def _uc_sig(cfg, exp):
             "on_missing": missing, "recursively": bool(cfg["rec"])}
 
 
-def check_update(res, cfg, proto, bare=False):
+def check_update(res, cfg, proto, bare=False, shape=None, form="new"):
+    """*proto* is the dictionary the value is built from: its context when the value's *shape* is a
+    (data, context) pair, otherwise a dictionary somewhere inside data that has no context (then the
+    element works on the empty context and the dictionary belongs to the data that must not change).
+    *form* is the life-cycle form of the element (new, copied, used before ...)."""
+    shape = shape or ("bare-list" if bare else "pair")
+    given = proto
+    if shape not in V.PAIR_SHAPES:
+        proto = {}
     exp = M.uc_expect_ctor(cfg)
-    case = {"law": "update", "cfg": cfg, "ctx": proto, "bare": bare}
+    case = {"law": "update", "cfg": cfg, "ctx": given, "bare": bare}
+    if shape not in ("pair", "bare-list"):
+        case["shape"] = shape
+    if form != "new":
+        case["form"] = form
     sig = _uc_sig(cfg, exp)
     upd_obj = R.fresh(cfg["update"])
     try:
@@ -708,6 +803,12 @@ def check_update(res, cfg, proto, bare=False):
     if ctor != "ok" or exp["errors"]:
         res.case(nontrivial=False, outcome=("ctor", ctor))
         return case
+    if form != "new":
+        el = V.element_in_form(form, el)
+        if el is None:
+            res.count("element_form_does_not_exist:" + form)
+            res.case(nontrivial=False, outcome=("no-such-form", form))
+            return case
 
     kind = exp["kind"]
     sub = tuple(cfg["sub"].split("."))
@@ -743,12 +844,10 @@ def check_update(res, cfg, proto, bare=False):
                 # empty string."
                 want_kind, new = "changed", M.set_path(proto, sub, M.render(parts, proto, missing="")[1], rec)
     # -- the call
-    ctx = R.fresh(proto)
-    data = [1]
-    value = data if bare else (data, ctx)
+    value, data, ctxobj = V.make(shape, given)
     src_ids = None
     if kind == "ctxvalue" and strict:
-        st, src_obj = M.find(ctx, src_path)
+        st, src_obj = M.find(V.plain(ctxobj) if ctxobj is not None else {}, src_path)
         overlap = src_path[:len(sub)] == sub or sub[:len(src_path)] == src_path
         if st == "present" and not overlap:
             src_ids = R.containers(src_obj)
@@ -758,8 +857,10 @@ def check_update(res, cfg, proto, bare=False):
     except Exception as e:
         ret, o = None, _ename(e)
     rd, rc, had = _split(ret) if o == "ok" else (None, None, False)
+    rc = V.plain(rc)
+    ctx = V.plain(ctxobj) if ctxobj is not None else {}
     problem = None
-    if o == "ok" and not (rd is data and data == [1]):
+    if not ((o != "ok" or rd is data) and V.data_intact(shape, data, given)):
         problem = "data-touched"
     elif strict:
         if want_kind == "LenaKeyError":
@@ -805,10 +906,18 @@ def check_update(res, cfg, proto, bare=False):
         problem = "update-argument-mutated"
     if problem:
         st, vk = _path_status_cause(proto, sub) if exp["sub"] == "ok" else ("n/a", "n/a")
+        if shape not in ("pair", "bare-list"):
+            cause = {"law": "update-value-shape", "shape": shape, "update_kind": sig["update_kind"],
+                     "problem": problem}
+        elif form != "new":
+            cause = {"law": "update-element-form", "form": form, "update_kind": sig["update_kind"],
+                     "on_missing": sig["on_missing"], "problem": problem,
+                     "expected": want_kind or "contract-only"}
+        else:
+            cause = dict(sig, law="update-exactly-the-item", problem=problem, target_status=st,
+                         target_old_value=vk, expected=want_kind or "contract-only")
         res.violation(case, {"problem": problem, "returned_context": rc if o == "ok" else o},
-                      new if new is not None else want_kind,
-                      dict(sig, law="update-exactly-the-item", problem=problem, target_status=st,
-                           target_old_value=vk, expected=want_kind or "contract-only"))
+                      new if new is not None else want_kind, cause)
     # -- the configured value is still the configured value after a consumer edited the first result
     elif strict and want_kind == "changed" and o == "ok" and \
             ((kind == "simple" and R.containers(cfg["update"])) or
@@ -827,7 +936,7 @@ def check_update(res, cfg, proto, bare=False):
         if not good:
             res.violation(dict(case, second_call=True), rc2, new,
                           dict(sig, law="update-given-value-stable"))
-    res.case(nontrivial=bool(want_kind == "changed" and proto and not _teq(new, proto)),
+    res.case(nontrivial=bool(want_kind == "changed" and given and (proto is not given or not _teq(new, proto))),
              outcome=(want_kind, repr(R.tfreeze(new)) if new is not None else o))
     return case
 
@@ -1032,6 +1141,30 @@ def run_shard(p, tier):
                 for proto in mine:
                     case = check_update(res, cfg, proto)
             res.sample(case, 3)
+    elif kind == "shapes":
+        good, _ = _uc_split(tier)
+        mine = [VS_SHAPES[j] for j in range(p["i"], len(VS_SHAPES), p["k"])]
+        for shape in mine:
+            for proto in d["vs_ctx"]:
+                for cfg0 in good:
+                    for sub in d["vs_subs"]:
+                        case = check_update(res, dict(cfg0, sub=M.dotted(sub)), proto, shape=shape)
+                for path in DELETE_VARIANT_PATHS:
+                    check_delete_variant(res, proto, path, shape=shape)
+            res.sample(case, 2)
+    elif kind == "forms":
+        good, _ = _uc_split(tier)
+        ctxs = _ef_contexts(tier)
+        mine = [ctxs[j] for j in range(p["i"], len(ctxs), p["k"])]
+        for cfg0 in good:
+            for sub in d["ef_subs"]:
+                cfg = dict(cfg0, sub=M.dotted(sub))
+                for proto in mine:
+                    case = check_update(res, cfg, proto, form=p["form"])
+        res.sample(case, 2)
+        for proto in mine:
+            for path in DELETE_VARIANT_PATHS:
+                check_delete_variant(res, proto, path, form=p["form"])
     return res
 
 
@@ -1056,7 +1189,10 @@ def replay(case):
         check_tostring_pair(res, case["d1"], case["d2"])
     elif law == "update":
         cfg = dict(case["cfg"])
-        check_update(res, cfg, R.fresh(case["ctx"]), bare=bool(case.get("bare")))
+        check_update(res, cfg, R.fresh(case["ctx"]), bare=bool(case.get("bare")), shape=case.get("shape"),
+                     form=case.get("form", "new"))
+    elif law == "delete-variant":
+        check_delete_variant(res, R.fresh(case["ctx"]), case["path"], shape=case["shape"], form=case["form"])
     elif law == "malformed-delete":
         check_malformed_delete(res, case["path"], case["form"], R.fresh(case["ctx"]))
     elif law == "malformed-fuw":
@@ -1074,10 +1210,14 @@ LEVEL_TEXT = ("bounded exhaustive exploration: every context of whole families o
               "str_to_list / DeleteContext; every template string of up to 4 (thorough 5) tokens from literals, "
               "fields and stray braces through format_context and format_update_with; every key order of every "
               "dictionary of a family through to_string; the full UpdateContext option matrix x subcontexts x "
-              "contexts - all judged by a path-lookup / literal-field-concatenation / edit-of-a-fresh-copy "
+              "contexts, and that matrix and the DeleteContext keys again x 24 shapes of the value ((data, context) "
+              "pairs and look-alikes that are data) and x the life-cycle forms of the element (deepcopy, copy, "
+              "pickle, used before) - all judged by a path-lookup / literal-field-concatenation / edit-of-a-fresh-copy "
               "reference and a constructor decision table written from the docstrings")
 LEVEL_NOTE = ("holds for the enumerated alphabet only (two context keys, depth <= 3, path components {a, b, c, 1}, "
               "JSON-like leaves, jinja2 present); ill-formed dotted strings and templates are judged by the "
-              "exception contract only; non-string keys, dict subclasses and aliased contexts are outside")
+              "exception contract only; non-string keys, dict subclasses below the top level of a context and aliased "
+              "contexts are outside; copies of elements that hold a jinja2 template do not exist and are skipped")
 TECHNIQUE = ("exhaustive enumeration of contexts x key paths x notations, template strings and the UpdateContext "
-             "option matrix on the real code against an independent lookup/template/edit reference model")
+             "option matrix (x value shapes x element life-cycle forms) on the real code against an independent "
+             "lookup/template/edit reference model")
